@@ -17,6 +17,25 @@ fn main() {
             let h = std::thread::Builder::new().stack_size(vharness::report::STACK).spawn(move || vharness::mon::c01::worker_case(&case)).unwrap();
             println!("{}", serde_json::to_string_pretty(&h.join().unwrap()).unwrap());
         }
+        Some("showcase") => {
+            // vcheck showcase <seed> <tag> <case> <frag,frag> [thorough]: print the script of an honest-workload case without running it
+            use vharness::mon::honest::*;
+            let seed: u64 = args[2].parse().unwrap();
+            let tag: u64 = args[3].parse().unwrap();
+            let case: u64 = args[4].parse().unwrap();
+            let frags: Vec<Frag> = args[5].split(',').map(|f| match f { "seq" => Frag::Seq, "stream" => Frag::Stream, "streamnofail" => Frag::StreamNoFail, _ => Frag::SeqNoFail }).collect();
+            let thorough = args.get(6).map(|t| t == "thorough").unwrap_or(false);
+            let mut rng = vharness::rng::Rng::derive(seed, tag, case);
+            let frag = *rng.pick(&frags);
+            let g = mk_gen(&mut rng, frag, thorough);
+            let ids = vharness::sim::standard_peer_ids(g.n_peers);
+            let sc = vharness::gen::generate(&mut rng, &g, &ids);
+            let mut air = sc.air.clone();
+            for (i, id) in ids.iter().enumerate() {
+                air = air.replace(id.as_str(), &format!("@P{i}"));
+            }
+            println!("; frag={:?} n_peers={}\n{}", frag, g.n_peers, air);
+        }
         Some("play") => {
             // vcheck play <air-file> <n_peers> <seed> : run one random history of a hand-written script and print it
             let air = std::fs::read_to_string(&args[2]).expect("air file");
